@@ -91,7 +91,7 @@ pub fn strategy() -> BoxedStrategy<Case> {
                 _ => u64::MAX,
             };
             for f in base.files.iter_mut() {
-                let max = std::cmp::min(b.saturating_mul(300), cap2);
+                let max = std::cmp::min(std::cmp::min(b.saturating_mul(300), cap2), 4 << 20);
                 let mut total = 0u64;
                 for s in f.content.segs.iter_mut() {
                     let l = match s {
